@@ -6,7 +6,16 @@ import (
 
 	"github.com/consensys/gnark/backend/groth16"
 	"github.com/consensys/gnark/constraint"
+	"worldcoin/gnark-mbu/prover"
 )
+
+// the handler under test is the one server.Run installs for /prove: Run is executed (real code, library calls stubbed) and the
+// value it hands to the mux is captured
+func verifDeployedHandler() http.Handler { return nil }
+func verifDeploy(ps *prover.ProvingSystem, mode string) http.Handler {
+	Run(&Config{ProverAddress: "prover-address", MetricsAddress: "metrics-address", Mode: mode}, ps)
+	return verifDeployedHandler()
+}
 
 func verifStubPK(sys string) groth16.ProvingKey          { return nil }
 func verifStubVK(sys string) groth16.VerifyingKey        { return nil }
